@@ -12,6 +12,7 @@ from rules.c14 import Tokenizer
 
 RULES = {
     "R-15.1": "a record type lower-cases the names in its RDATA iff it is listed in RFC 4034 6.2 as amended by RFC 6840 5.1 (dataflow of _to_wire's canonicalize parameter into every embedded Name.to_wire)",
+    "R-15.8": "Name.canonicalize lower-cases every label on every path: its only return value is a Name built from `x.lower()` of each label (a 'nothing to do' shortcut decided with isupper()/islower() misjudges mixed-case labels)",
     "R-15.7": "canonical RRsets contain no duplicates and signing a zone twice leaves one NSEC per name: equal records hash equally (C07 R-07.3 adopted) and merges go through Rdataset.add, which keeps singleton types single (C07 R-07.7 adopted)",
     "R-15.6": "the zone signer marks 'no name yet' with None and tests it by identity everywhere: the empty name (the apex of a relativized zone) is falsy, so a truth-value test drops the apex from the NSEC chain",
     "R-15.5": "Name.to_wire(canonicalize=True) folds every label it emits, the origin's included: each raw label emission sits on the not-canonicalize side of a `canonicalize` test and every nested to_wire/to_digestable call passes canonicalize on",
@@ -298,6 +299,12 @@ def run(model, rep, tier):
         rep.check(not carry and bool(in_loop), "R-15.4", bm.qualname, where(bm, carry[0] if carry else bm.node), f"the window length `{L}` is recomputed from the current type alone (types are sorted, so the last one of a window is its highest)",
                   f"`{src(carry[0])[:50]}` carries the window length over from earlier types: a later window inherits the length of a longer earlier one and the NSEC/NSEC3/CSYNC bitmap gets trailing zero octets "
                   "(forbidden by RFC 4034 4.1.2; the canonical form differs)" if carry else "the window length is not set per type", stmt="window-length")
+    nc8 = model.func("dns.name.Name.canonicalize")
+    rets8 = [r for r in ast.walk(nc8.node) if isinstance(r, ast.Return) and r.value is not None]
+    good8 = [r for r in rets8 if pat.match(pat.parse_expr("Name([__x.lower() for __x in self.labels])"), r.value, pat.Env())]
+    rep.check(bool(rets8) and len(good8) == len(rets8), "R-15.8", nc8.qualname, where(nc8, next((r for r in rets8 if r not in good8), nc8.node)), "every path returns Name([x.lower() for x in self.labels])",
+              f"canonicalize has a return that is not `Name([x.lower() for x in self.labels])` (`{src(next((r for r in rets8 if r not in good8), nc8.node))[:50]}`): names that reach it unfolded make DS digests, "
+              "NSEC3 hashes and signing input differ from the RFC values", stmt="canonicalize-folds")
     rep.share(model, "C07", {"R-07.3", "R-07.7"}, "R-15.7", "_make_rrsig_signature_data and compute_digest iterate rdatasets (hash-deduplicated); sign_zone adds NSEC records with txn.add (union into the stored rdataset)")
     from rules.common import mixed_presence_tests
     mixed_presence_tests(model, rep, "R-15.6", {"dns.dnssec"}, "a name-or-None marker of the zone signer",
@@ -309,6 +316,8 @@ def run(model, rep, tier):
 
 
 WITNESSES = [
+    {"id": "c15-canonicalize-shortcut-isupper", "rule": "R-15.8", "file": "dns/name.py", "expect": "fires",
+     "old": "        return Name([x.lower() for x in self.labels])", "new": "        if not any(x.isupper() for x in self.labels):\n            return self\n        return Name([x.lower() for x in self.labels])"},
     {"id": "c15-last-secure-truth-tested", "rule": "R-15.6", "file": "dns/dnssec.py", "expect": "fires",
      "old": "    if last_secure is not None:\n        _txn_add_nsec(\n", "new": "    if last_secure:\n        _txn_add_nsec(\n"},
     {"id": "c15-bitmap-window-length-carried-over", "rule": "R-15.4", "file": "dns/rdtypes/util.py", "expect": "fires",
